@@ -46,6 +46,10 @@ def run(ctx):
         # shared slot and releases the slot's lock before it waits (smol's detach takes the same lock synchronously) —
         # the join protocol of C17, checked per runtime
         c17.check_join(ctx, fx, cfg, "R18.4")
+        # R18.6 (shared with C17) joining and detaching mean the same on every runtime: what a join waits on cannot cancel the
+        # actor when the join is given up, and detach cannot take it away from a join requested earlier (both were true of the
+        # smol spawner of the pinned tree only: D7 / D8)
+        c17.check_join_handle_is_inert(ctx, fx, cfg, "R18.6")
     check_siblings(ctx, fxs)
     return core.finish(ctx)
 
@@ -143,6 +147,17 @@ def check_runtime(ctx, fx, cfg):
         return
     m = impls[mine[0]]
     ctx.require(set(m) >= {"spawn_actor", "spawn_future", "sleep"}, "R18.3", "spawner-methods@" + cfg, "spawner methods missing: %s" % sorted(m), detail=sorted(m))
+    # R18.5 spawn_actor / spawn_future hand their future to the runtime's ambient spawn function (the known ones of
+    # `runtimes.SPAWN_FNS`), exactly once — a future spawned through a cached runtime handle, a hand-rolled executor or not at
+    # all runs (or does not) by rules of its own, not by those of the runtime the caller is in
+    for mname in ("spawn_actor", "spawn_future"):
+        mf = m.get(mname)
+        if mf is None:
+            continue
+        mb = ctx.body(fx, mf)
+        sps = [t_ for _bi, t_ in mb.normal_calls() if t_.get("callee") in runtimes.SPAWN_FNS]
+        ok_ = len(sps) == 1 and bool(roots(mb, sps[0]["args"][0])) and all(r_.kind == "arg" or r_.kind.startswith("call:") for r_ in roots(mb, sps[0]["args"][0])) and any(r_.kind == "arg" for r_ in roots(mb, sps[0]["args"][0]))
+        ctx.require(ok_, "R18.5", "%s-uses-ambient-spawn@%s" % (mname, cfg), "%s must hand its future to the runtime's own spawn function exactly once (found %s)" % (mname, [t_["callee"] for t_ in sps]), fn=mf["def"], site=mf["loc"])
     # every runtime spawn in the crate: what happens to the handle
     for f, bi, t in graph.all_calls(fx, lambda t: t.get("callee") in runtimes.SPAWN_FNS):
         b = ctx.body(fx, f)
@@ -172,6 +187,10 @@ def check_runtime(ctx, fx, cfg):
                                 okd = takes and len(dets) == 1
                     # and the returned ActorHandle is the one with the detach fn
                     okd = okd and (wd[0]["dest"] == [0] or any(s["k"] == "ret" for s in sinks(b, wd[0]["dest"][0])))
+                if not okd and detached and not wd:
+                    # ... or the task is detached right where it is spawned and nothing that can cancel it is kept (the loop
+                    # then reports its result through a channel: judged by C17's `reports-loop-result`)
+                    okd = True
                 if not okd and stored:
                     # ... or the detaching is a method of the task object the handle is built from (`impl SpawnedTask for
                     # SmolTask { fn detach(self: Box<Self>) { take the handle out of the slot; detach it } }`), which
